@@ -457,6 +457,26 @@ func run(r *harness.Run) {
 				}
 			}
 		}
+		// the same mutants once more, written IN PLACE over a buffer that has just verified (a receive buffer that is recycled,
+		// an edit in the caller's own slice): every mutant of the original's length, straight after a successful verification
+		// of the original in that very buffer
+		{
+			buf := append([]byte(nil), st.text...)
+			for _, m := range mutations(v) {
+				text := present(m, 0)
+				if len(text) != len(st.text) {
+					continue
+				}
+				copy(buf, st.text)
+				if ok, _ := anySigned(buf); !ok {
+					break // nothing verifies here: nothing to remember
+				}
+				copy(buf, text)
+				if ok, who := anySigned(buf); ok {
+					return fmt.Errorf("after %v: object %s verified, was then overwritten in place with the mutant %s, and that still verifies for %s", st.ops, st.text, text, who)
+				}
+			}
+		}
 		// 1-bit signature corruption
 		for _, k := range keys {
 			if !st.signed[k.Server+"|"+k.KeyID] {
